@@ -217,7 +217,7 @@ func modeRace(c *Ctx) {
 			order = append(order, id)
 			orderMu.Unlock()
 			runtime.Gosched()
-			if id%9 == 5 {
+			if id%9 == 5 || id >= 1<<40 {
 				// a handler that answers without looking at the request (the body stays unread)
 				if impls := implsOf[op.Key]; len(impls) > 0 {
 					ri := impls[int(id)%len(impls)]
@@ -498,6 +498,38 @@ func modeRace(c *Ctx) {
 			sigs[string(sig)] = true
 		}
 		orderMu.Unlock()
+	}
+	// a second client value, configured with a trailing slash on its base URL and
+	// shared from its very first call: only the race detector judges this phase
+	// (whatever the calls answer, using a client must not write to it)
+	{
+		cl2 := reflect.New(ct)
+		cl2.Elem().FieldByName("BaseURL").SetString("http://example.com" + c.Base + "/")
+		cl2.Elem().FieldByName("HTTPClient").Set(cl.Elem().FieldByName("HTTPClient"))
+		var wg sync.WaitGroup
+		start := make(chan struct{})
+		for gi := 0; gi < 8; gi++ {
+			wg.Add(1)
+			go func(gi int) {
+				defer wg.Done()
+				rng := rand.New(rand.NewSource(c.Case.Seed*7 + int64(gi)))
+				<-start
+				for i := 0; i < 6; i++ {
+					op := ops[rng.Intn(len(ops))]
+					id := atomic.AddInt64(&idSeq, 1) + 1<<40 // handlers answer these without looking
+					g := &Gen{Rng: rng, Doc: c.Doc, Tag: fmt.Sprintf("req%d", id), TagInt: id % 1000, HasTagInt: true}
+					params := c.genParams(g, op, nil)
+					ctx := context.WithValue(context.Background(), raceIDKey{}, id)
+					func() {
+						defer func() { _ = recover() }()
+						op.ClientM.Func.Call([]reflect.Value{cl2, reflect.ValueOf(ctx), params})
+					}()
+					c.Stat("trailing_slash_client_calls", 1)
+				}
+			}(gi)
+		}
+		close(start)
+		wg.Wait()
 	}
 	c.mu.Lock()
 	c.stats["inflight_high_water"] = int(atomic.LoadInt64(&high))
